@@ -1,6 +1,7 @@
 (* C06 - truncated input is reported as insufficient data at every cut point.  Statements only. *)
 From PV Require Import Base.Bytes Model.Proc Model.Types Model.Enc Model.Dec Proofs.ProcSim Proofs.DecStream Proofs.TableFacts
-     Model.TableTypes Gen.Tables Proofs.RoundTrip2 Proofs.StreamStage2.
+     Model.TableTypes Gen.Tables Proofs.RoundTrip1 Proofs.RoundTrip2 Proofs.StreamStage2 Proofs.RoundTrip3b Proofs.RoundTripModesC Proofs.RoundTripModes
+     Proofs.StreamClean Proofs.StreamStage3.
 Local Open Scope nat_scope.
 
 (* Generic: a decoder that never looks at the end of its input, and that decodes e completely,
@@ -64,3 +65,45 @@ Example C06_stage2_every_cut_nonvacuous :
                     && match resume (dec_item BER 60 (Some stage2_example_ty)) (mkStream (firstn k stage2_example_enc) 0 false 0) with
                        | inl (ReadN _ _, _) => true | _ => false end) (seq 0 50) = true.
 Proof. exact c06_example. Qed.
+
+(* The general fact behind all instances: EVERY run of the item decoder that consumes an encoding - any
+   codec, any fuel, any guiding type or none, any flags - is a run that never looks at the end of the
+   input; hence every round-trip theorem yields the truncation theorem for free *)
+Theorem C06_every_consuming_run_is_clean : forall c f sp acc rs ae sfun bs v, bs <> [] ->
+  DecFrame.consumes (dec_call c f sp acc rs ae sfun) bs v -> consumes_clean (dec_call c f sp acc rs ae sfun) bs v.
+Proof. exact consumes_clean_dec_call. Qed.
+Print Assumptions C06_every_consuming_run_is_clean.
+
+(* The whole universe (every type constructor), definite mode, encoder BER or DER, decoder BER/CER/DER:
+   every strict prefix, at every cut point, is insufficient data *)
+Theorem C06_stage3_every_cut : forall ce cd srt T v b fuel k,
+  enc_ok ce -> stage3_ty srt ce T = true -> stage3_val ce cd T v = true ->
+  encode ce true 0 T v = Ok b -> (N.of_nat (length b) <= index_max)%N ->
+  (length b + ty_depth T <= fuel)%nat -> (k < length b)%nat ->
+  decode_with cd fuel (Some T) (firstn k b) = Err EEndOfStream
+  /\ exists n kont s1, resume (dec_item cd fuel (Some T)) (mkStream (firstn k b) 0 false 0) = inl (ReadN n kont, s1)
+                       /\ (length (avail s1) < n)%nat.
+Proof. exact c06_stage3. Qed.
+Print Assumptions C06_stage3_every_cut.
+
+(* Indefinite-length mode (where the decoder looks ahead for 00 00 at every step) and the CER encoder:
+   every cut point, including those inside an end-of-octets marker *)
+Theorem C06_indefinite_every_cut : forall cd chunk T v b fuel k,
+  dec_ok cd -> stage2_ty T = true -> RoundTripModes.no_f01 T = true -> modes_val BER cd T v = true ->
+  encode BER false chunk T v = Ok b -> (N.of_nat (length b) <= index_max)%N ->
+  (length b + ty_depth T <= fuel)%nat -> (k < length b)%nat ->
+  decode_with cd fuel (Some T) (firstn k b) = Err EEndOfStream
+  /\ exists n kont s1, resume (dec_item cd fuel (Some T)) (mkStream (firstn k b) 0 false 0) = inl (ReadN n kont, s1)
+                       /\ (length (avail s1) < n)%nat.
+Proof. exact c06_indefinite. Qed.
+Print Assumptions C06_indefinite_every_cut.
+
+Theorem C06_cer_every_cut : forall cd d k0 T v b fuel k,
+  dec_ok cd -> stage2_ty T = true -> RoundTripModes.no_f01 T = true -> modes_val CER cd T v = true ->
+  encode CER d k0 T v = Ok b -> (N.of_nat (length b) <= index_max)%N ->
+  (length b + ty_depth T <= fuel)%nat -> (k < length b)%nat ->
+  decode_with cd fuel (Some T) (firstn k b) = Err EEndOfStream
+  /\ exists n kont s1, resume (dec_item cd fuel (Some T)) (mkStream (firstn k b) 0 false 0) = inl (ReadN n kont, s1)
+                       /\ (length (avail s1) < n)%nat.
+Proof. exact c06_cer_encoder. Qed.
+Print Assumptions C06_cer_every_cut.
